@@ -197,9 +197,9 @@ theorem looksLikeUnnamed_ok (env : ProcEnv) {c : Cursor} (h : c.Inv) :
     rw [hs]
     exact ⟨_, _, rfl⟩
 
-theorem unnamedOr_ok (env : ProcEnv) (c : Cursor) (start : Nat) (other : PErr)
-    (hs : Boundary c.input start) :
-    ∃ e, unnamedOr env c start other = .ok e ∧ (e.start = start ∨ e = other) := by
+theorem unnamedOr_ok (env : ProcEnv) (c : Cursor) (at_ start : Nat) (other : PErr)
+    (hs : Boundary c.input at_) :
+    ∃ e, unnamedOr env c at_ start other = .ok e ∧ (e.start = start ∨ e = other) := by
   obtain ⟨clone, h1, h2, _, _⟩ := at_spec hs
   obtain ⟨v, p, h3⟩ := looksLikeUnnamed_ok env h2
   unfold unnamedOr
@@ -210,9 +210,21 @@ theorem unnamedOr_ok (env : ProcEnv) (c : Cursor) (start : Nat) (other : PErr)
   | true => exact ⟨_, rfl, .inl rfl⟩
   | false => exact ⟨_, rfl, .inr rfl⟩
 
-theorem parseNameLoop_fwd (fuel : Nat) (c : Cursor) (name : List Char) (start : Nat) (h : c.Inv)
+theorem invalidName_fwd (env : ProcEnv) (c : Cursor) (start : Nat)
+    (hs : Boundary c.input start) :
+    Res.Fwd c Prod.snd (invalidName env c start) := by
+  unfold invalidName
+  obtain ⟨e, he, hcase⟩ := unnamedOr_ok env c start start ⟨.string, start, c.pos - start⟩ hs
+  rw [he]
+  dsimp only
+  rw [Res.fwd_err]
+  rcases hcase with h1 | h1
+  · rw [h1]; exact hs
+  · rw [h1]; exact hs
+
+theorem parseNameLoop_fwd (env : ProcEnv) (fuel : Nat) (c : Cursor) (name : List Char) (start : Nat) (h : c.Inv)
     (hs : Boundary c.input start) (hf : c.rest.length < fuel) :
-    Res.Fwd c Prod.snd (parseNameLoop fuel c name start) := by
+    Res.Fwd c Prod.snd (parseNameLoop env fuel c name start) := by
   induction fuel generalizing c name with
   | zero => omega
   | succ fuel ih =>
@@ -222,7 +234,7 @@ theorem parseNameLoop_fwd (fuel : Nat) (c : Cursor) (name : List Char) (start : 
       dsimp only
       cases Names.validateOwned (bytesOfChars name) with
       | some n => exact Adv.refl c
-      | none => exact hs
+      | none => exact invalidName_fwd env c start hs
     | some v =>
       obtain ⟨index, ch⟩ := v
       obtain ⟨c1, hn⟩ := peek_next hp
@@ -244,7 +256,7 @@ theorem parseNameLoop_fwd (fuel : Nat) (c : Cursor) (name : List Char) (start : 
       · simp only [hnc]
         cases Names.validateOwned (bytesOfChars name) with
         | some n => exact Adv.refl c
-        | none => exact hs
+        | none => exact invalidName_fwd env c start hs
 
 /-- A.1: `parse_name` never panics, an `ok` result is an advanced cursor on the same input, an error
 starts on a char boundary -/
@@ -260,11 +272,11 @@ theorem parseName_fwd (env : ProcEnv) {c : Cursor} (h : c.Inv) :
     dsimp only
     by_cases ha : isAsciiAlnum ch = true
     · simp only [ha, if_true]
-      refine Res.Fwd.trans a1 (parseNameLoop_fwd _ c1 _ _ (a1.inv h) ?_ ?_)
+      refine Res.Fwd.trans a1 (parseNameLoop_fwd env _ c1 _ _ (a1.inv h) ?_ ?_)
       · rw [a1.input]; exact h.boundary
       · omega
     · simp only [ha, Bool.false_eq_true, if_false]
-      obtain ⟨e, he, hcase⟩ := unnamedOr_ok env c1 c.pos ⟨.string, index, utf8Len ch⟩
+      obtain ⟨e, he, hcase⟩ := unnamedOr_ok env c1 c.pos c.pos ⟨.string, index, utf8Len ch⟩
         (by rw [a1.input]; exact h.boundary)
       rw [he]
       dsimp only
@@ -691,7 +703,7 @@ theorem specsParen_fwd (fuel : Nat) (c : Cursor) (bracePos start : Nat) (buffer 
 /-! ### `parse_pep508_requirement`, cut into stages -/
 
 /-- the `( url_req | name_req )?` stage -/
-def kindStage (env : ProcEnv) (start : Nat) (c : Cursor) : List ExtCall × Res (ReqKind × Cursor) :=
+def kindStage (env : ProcEnv) (nameStart start : Nat) (c : Cursor) : List ExtCall × Res (ReqKind × Cursor) :=
   match c.peekChar with
   | some '@' =>
     (match c.next with
@@ -719,7 +731,7 @@ def kindStage (env : ProcEnv) (start : Nat) (c : Cursor) : List ExtCall × Res (
       | (calls, .err e) => (calls, .err e)
       | (calls, .panic s) => (calls, .panic s)
     else
-      match unnamedOr env c start ⟨.string, c.pos, utf8Len other⟩ with
+      match unnamedOr env c nameStart start ⟨.string, c.pos, utf8Len other⟩ with
       | .ok e => ([], .err e)
       | .err e => ([], .err e)
       | .panic s => ([], .panic s)
@@ -786,7 +798,7 @@ theorem parseRequirement_eq (env : ProcEnv) (x : Ext) (input : List Char) :
         | .panic s => ⟨[], .panic s⟩
         | .ok (extras, c2) =>
           tailStage x input 0 (Cursor.new input).eatWhitespace.pos c1.pos name extras
-            (kindStage env 0 c2.eatWhitespace) := by
+            (kindStage env (Cursor.new input).eatWhitespace.pos 0 c2.eatWhitespace) := by
   rfl
 
 /-- outcome of the kind stage relative to the cursor it starts from -/
@@ -802,8 +814,9 @@ def KindOK (c : Cursor) (r : List ExtCall × Res (ReqKind × Cursor)) : Prop :=
   | .err e => Boundary c.input e.start
   | .panic _ => False
 
-theorem kindStage_ok (env : ProcEnv) {start : Nat} {c : Cursor} (h : c.Inv)
-    (hs : Boundary c.input start) : KindOK c (kindStage env start c) := by
+theorem kindStage_ok (env : ProcEnv) {nameStart start : Nat} {c : Cursor} (h : c.Inv)
+    (hn : Boundary c.input nameStart) (hs : Boundary c.input start) :
+    KindOK c (kindStage env nameStart start c) := by
   unfold kindStage
   split
   · rename_i hp
@@ -869,7 +882,7 @@ theorem kindStage_ok (env : ProcEnv) {start : Nat} {c : Cursor} (h : c.Inv)
         | ok c3 => exact ⟨g.1, g.2, fun t ht => by simp at ht⟩
         | err e => exact ⟨g.1, g.2⟩
         | panic s => exact g.2.elim
-    · obtain ⟨e, he, hcase⟩ := unnamedOr_ok env c start ⟨.string, c.pos, utf8Len other⟩ hs
+    · obtain ⟨e, he, hcase⟩ := unnamedOr_ok env c nameStart start ⟨.string, c.pos, utf8Len other⟩ hn
       rw [he]
       refine ⟨CallsOK.nil _, ?_⟩
       show Boundary c.input e.start
@@ -1027,7 +1040,7 @@ theorem parseRequirement_good (env : ProcEnv) (x : Ext) (input : List Char) :
       have in3 : c2.eatWhitespace.input = input := a3.input.trans in0
       dsimp only
       refine tailStage_good x input 0 c0.pos c1.pos name extras c2.eatWhitespace _ i3 in3
-        (kindStage_ok env i3 (Boundary.zero _)) (Boundary.zero _) ?_ ?_ a1.pos_le
+        (kindStage_ok env i3 (by rw [a3.input]; exact i0.boundary) (Boundary.zero _)) (Boundary.zero _) ?_ ?_ a1.pos_le
       · rw [← in0]; exact i0.boundary
       · rw [← in0, ← a1.input]; exact i1.boundary
 
